@@ -19,7 +19,7 @@ pub fn property() -> Property {
     Property {
         id: "C14",
         level: "exploration",
-        rule: "Exhaustive matrix of real TLS handshakes against local openssl servers (threads on 127.0.0.1; names mapped with the resolver hook H2) presenting fixture certificates: {leaf chained to the private CA, self-signed, unknown issuer, expired CA-signed leaf, impostor chain = self-signed leaf followed by the genuine certificate and its CA} x {URL host matches the certificate name, differs} x accept_invalid_certs {off,on} x accept_invalid_hostnames {off,on} x private CA added as root {no,yes} x path {direct https, CONNECT through a real loopback proxy thread, https proxy (TLS to the proxy AND nested TLS to the origin; the proxy's certificate is varied separately)} x where the flags/root were set {session, request, clone of the session, session/request with every flag first switched on and then set to its final value, unrelated setters on session and request while the settings are shared with live requests, and a SIBLING request / the ORIGINAL session that must stay unaffected}; plus (rustls flavour) 'foreign key' cells - genuine chain, handshake signed with another key: rejected whatever the host-name waiver says -, 'validity window' cells (certificates minted at run time that expired 90 s / 1 h / 1 d ago or become valid in 2 min / 1 h / 1 d are rejected, one valid from yesterday to tomorrow is accepted), 'sibling roots' (two sessions/requests that each added a different root, handshaking one after the other in both orders, keep their own anchors) and 'pinned leaf' cells: the self-signed certificate the server presents (valid, or expired) is itself added as a root - validity period and name must still be enforced (whether a valid pinned leaf is anchored is backend-specific: recorded, not judged). 'caller-host-header' cells: a Host header supplied by the caller (request or session, with/without :443) naming another host - the URL's host stays the name that is checked, in both directions; 'refusing-proxy' cells: a loopback proxy that refuses the CONNECT (400/403/404/405/407/501/502/503) and answers any other request with 200 in clear - no response may come back and no byte of the https request may reach the proxy outside a tunnel, also when the https URL is reached through a 307. Oracle: truth table ok = (anchored or certs_off) and (in validity or certs_off) and (name ok or names_off or certs_off), evaluated with the flags of THAT request; safety (success => ok) is always judged, liveness (ok => success) for the CA->leaf topology on DNS names and whenever certs_off waives everything; the error kind of rejections is recorded; a rejected handshake must not have delivered the request to the server. Non-trivial: every cell; distinct = hash(cell).",
+        rule: "Exhaustive matrix of real TLS handshakes against local openssl servers (threads on 127.0.0.1; names mapped with the resolver hook H2) presenting fixture certificates: {leaf chained to the private CA, self-signed, unknown issuer, expired CA-signed leaf, impostor chain = self-signed leaf followed by the genuine certificate and its CA} x {URL host matches the certificate name, differs} x accept_invalid_certs {off,on} x accept_invalid_hostnames {off,on} x private CA added as root {no,yes} x path {direct https, CONNECT through a real loopback proxy thread, https proxy (TLS to the proxy AND nested TLS to the origin; the proxy's certificate is varied separately)} x where the flags/root were set {session, request, clone of the session, session/request with every flag first switched on and then set to its final value, unrelated setters on session and request while the settings are shared with live requests, and a SIBLING request / the ORIGINAL session that must stay unaffected}; plus (rustls flavour) 'foreign key' cells - genuine chain, handshake signed with another key: rejected whatever the host-name waiver says -, 'validity window' cells (certificates minted at run time that expired 90 s / 1 h / 1 d ago or become valid in 2 min / 1 h / 1 d are rejected, one valid from yesterday to tomorrow is accepted), 'sibling roots' (two sessions/requests that each added a different root, handshaking one after the other in both orders, keep their own anchors) and 'pinned leaf' cells: the self-signed certificate the server presents (valid, or expired) is itself added as a root - validity period and name must still be enforced (whether a valid pinned leaf is anchored is backend-specific: recorded, not judged). 'caller-host-header' cells: a Host header supplied by the caller (request or session, with/without :443) naming another host - the URL's host stays the name that is checked, in both directions; 'refusing-proxy' cells: a loopback proxy that refuses the CONNECT (400/403/404/405/407/501/502/503) and answers any other request with 200 in clear - no response may come back and no byte of the https request may reach the proxy outside a tunnel, also when the https URL is reached through a 307. Third flavour `rustlsnative`: the library built with tls-rustls-native-roots and run with an EMPTY platform trust store (SSL_CERT_FILE -> empty file). Oracle: truth table ok = (anchored or certs_off) and (in validity or certs_off) and (name ok or names_off or certs_off), evaluated with the flags of THAT request; safety (success => ok) is always judged, liveness (ok => success) for the CA->leaf topology on DNS names and whenever certs_off waives everything; the error kind of rejections is recorded; a rejected handshake must not have delivered the request to the server. Non-trivial: every cell; distinct = hash(cell).",
         assumptions: &["OpenSSL (server side and native-tls client side) / rustls implement the checks they are asked to perform; fixtures are what their names say (verified with `openssl verify` when generated)", "the system trust store does not contain the private CA (cells 'root not added' would reveal it)"],
         min_nontrivial: |t| t.pick(300, 1_000),
         gens,
@@ -43,7 +43,7 @@ fn gens(tier: Tier) -> Vec<Gen> {
         Gen { name: "connect-proxy", count: direct_cells(), exhaustive: true, run: run_connect_proxy },
         // https proxy: proxy certificate {good for pgood.test, wrong name, selfsigned} x origin cells (strided in quick)
         Gen { name: "ip-literal-hosts", count: (2 * 2 * 2 * 2 * 2 * 2) as u64, exhaustive: true, run: run_ip_literal },
-        #[cfg(feature = "rustls")]
+        #[cfg(feature = "rustls-any")]
         Gen { name: "foreign-key", count: (2 * 2 * 2 * 2) as u64, exhaustive: true, run: run_foreign_key },
         Gen { name: "caller-host-header", count: (2 * 2 * 2 * 2) as u64, exhaustive: true, run: run_caller_host },
         Gen { name: "refusing-proxy", count: (REFUSALS.len() * 2 * 2) as u64, exhaustive: true, run: run_refusing_proxy },
@@ -651,7 +651,7 @@ fn run_validity_window(ctx: &mut Ctx, _rng: &mut Rng, index: u64) {
 /// there). The server presents the genuine chain (`good` + CA) but signs the handshake with a
 /// DIFFERENT private key - an impostor replaying a public certificate. Whatever host-name waiver is
 /// set, the handshake must fail (TLS 1.2-only server and TLS 1.3-capable server).
-#[cfg(feature = "rustls")]
+#[cfg(feature = "rustls-any")]
 fn run_foreign_key(ctx: &mut Ctx, _rng: &mut Rng, index: u64) {
     use rustls::pki_types::{CertificateDer, PrivateKeyDer};
     use std::sync::Arc;
